@@ -550,6 +550,9 @@ class Evaluator:
 
     def exec_For(self, s, st):
         it = self.eval(s.iter, st)
+        if isinstance(it, Term) and it.head == 'iter' and it.args and isinstance(it.args[0], (Num, Tup)) and not any(
+                e.kind == 'lib' and e.data['name'] == 'builtins.next' and e.data['pos'] and veq(e.data['pos'][0], it) for e in self.events):
+            it = it.args[0]             # a fresh (never advanced) iterator over a sequence visits its elements in order
         if isinstance(it, Kw) and it.rest is None:
             it = Tup([Const(k) for k in it.items])
         if isinstance(it, Term) and it.head == 'method:items' and isinstance(it.args[0], Kw) and it.args[0].rest is None:
@@ -583,6 +586,8 @@ class Evaluator:
         elif isinstance(it, Term) and it.head == 'enumerate':
             ctx.kind = 'zip'
             a = it.args[0]
+            if isinstance(a, Term) and a.head == 'iter' and a.args:
+                a = a.args[0]           # a fresh iterator over a sequence visits its elements in order
             ctx.hi = a.length if isinstance(a, Num) else (term_as_num(a, True).length if isinstance(a, Term) else None)
             start = it.kw('start') if it.kw('start') is not None else (it.args[1] if len(it.args) > 1 else Num(C(0)))
             elem = Tup([Num(lsym + start.r) if isinstance(start, Num) else Term('binop:Add', (Num(lsym), start)), self.element_of(a, lsym)])
@@ -1523,6 +1528,8 @@ class Evaluator:
                     self.emit('method', st, node, name=meth, recv=recv, pos=list(pos), kw=dict(kw), result=r)
                     return r
             kind = 'ndarray' if meth in NDARRAY_FRESH_METHODS else 'unknown'
+            if meth == 'ravel' and not pos and not kw:
+                meth, kind = 'flatten', 'ndarray'        # same elements in the same (row-major) order
             r = Term('method:' + meth, (recv,) + tuple(pos), list(kw.items()), kind=kind, node=node)
             self.emit('method', st, node, name=meth, recv=recv, pos=list(pos), kw=dict(kw), result=r)
             return r
@@ -1868,7 +1875,39 @@ def h_path_join(ev, pos, kw, st, node):
     return Term('lib:os.path.join', pos, (), kind='str')
 
 
+def h_linspace(ev, pos, kw, st, node):
+    """linspace(a, b, k, endpoint=False) is linspace(a, b, k + 1)[:-1] (same step (b - a)/k, the end point dropped)"""
+    ep = kw.get('endpoint', pos[3] if len(pos) > 3 else None)
+    if not (isinstance(ep, Const) and ep.v is False) or getattr(ev, '_in_linspace', False):
+        return None
+    num = kw.get('num', pos[2] if len(pos) > 2 else None)
+    nn = ev.as_num(num) if num is not None else None
+    if nn is None or nn.length is not None:
+        return None
+    npos = list(pos[:2])
+    nkw = {k: v for k, v in kw.items() if k not in ('endpoint', 'num')}
+    nkw['num'] = Num(nn.r + C(1))
+    ev._in_linspace = True
+    try:
+        full = ev.call_lib('numpy.linspace', npos, nkw, None, st, node)
+    finally:
+        ev._in_linspace = False
+    return ev.subscript_val(full, Term('slice', (NONE, Num(C(-1)), NONE)), st, node)
+
+
+def h_ravel(ev, pos, kw, st, node):
+    v = _arg(pos, kw, 0, 'a')
+    if v is None or len(pos) > 1 or (set(kw) - {'a'}):
+        return None
+    if isinstance(v, Num):
+        return v if v.length is not None else Num(v.r, C(1), 'ndarray')
+    if isinstance(v, Term):
+        return Term('method:flatten', (v,), kind='ndarray', node=node)
+    return None
+
+
 LIB_HANDLERS = {
+    'numpy.linspace': h_linspace, 'numpy.ravel': h_ravel,
     'numpy.asarray': h_asarray, 'numpy.asanyarray': h_asarray, 'numpy.array': h_asarray,
     'numpy.ascontiguousarray': h_asarray, 'numpy.atleast_1d': h_asarray,
     'numpy.copy': h_asarray, 'numpy.append': h_append, 'numpy.concatenate': h_concatenate, 'numpy.insert': h_insert, 'numpy.hstack': h_concatenate,
